@@ -866,3 +866,59 @@ def _e2e_identifier(args, sh):
     ok = _validity_verdict(model, op, level, present, got)
     return (not ok), "real db.search (%s, %s root) on an empty real SQLite file: level %r keys %r -> %r" % (
         op, model, level, sorted(present), got)
+
+
+# ================================================================================================ storing
+# The entities a query selects are those of the instances AS LAST STORED: db.add_instance updates the row of an
+# instance that is stored again, and every required key of the new data set replaces the old one (an absent key
+# becomes NULL - it must not keep matching the value of the replaced copy).
+OPT_KEYS = [("patient_name", "PatientName"), ("study_date", "StudyDate"), ("accession_number", "AccessionNumber"),
+            ("study_id", "StudyID"), ("modality", "Modality")]
+OLD_VALUES = {"PatientName": "OLD^NAME", "StudyDate": "20190101", "AccessionNumber": "OLDACC", "StudyID": "OLDID",
+              "Modality": "MR"}
+
+
+@harness(
+    "C29",
+    timeout=(120, 600),
+    functions=["apps.qrscp.db:add_instance"],
+    bounds="one SOP Instance stored twice through db.add_instance: which of the optional keys (PatientName, StudyDate, "
+           "AccessionNumber, StudyID, Modality) each copy carries is solver-symbolic (5 + 5 bools), the second copy's "
+           "values are any string of <= 2 printable ASCII characters",
+    stubs=["as text_key_equiv (FakeSession.add appends the row)"],
+    outside="IS keys (SeriesNumber, InstanceNumber), transfer syntax / SOP class columns",
+)
+def restore_instance(first: List[bool], second: List[bool], v: str) -> bool:
+    """
+    pre: len(first) == 5 and len(second) == 5
+    pre: 1 <= len(v) <= 2 and text_ok(v)
+    post: _ == True
+    """
+    def make(present, values):
+        ds = MiniDataset()
+        ds.PatientID = "P0"
+        ds.StudyInstanceUID = "1.1"
+        ds.SeriesInstanceUID = "1.1.1"
+        ds.SOPInstanceUID = "1.1.1.1"
+        for i, (_col, kw) in enumerate(OPT_KEYS):
+            if present[i]:
+                setattr(ds, kw, values(kw))
+        return ds
+
+    rows = []
+    with _Env(rows) as session:
+        try:
+            db.add_instance(make(first, lambda kw: OLD_VALUES[kw]), session, "/a")
+            db.add_instance(make(second, lambda kw: v), session, "/b")
+        except Exception as e:
+            _reraise_control(e)
+            return False
+    if len(rows) != 1:
+        return False
+    row = rows[0]
+    ok = row.filename == "/b" and row.patient_id == "P0" and row.sop_instance_uid == "1.1.1.1"
+    for i, (col, kw) in enumerate(OPT_KEYS):
+        want = v if second[i] else None
+        got = getattr(row, col)
+        ok = ok and ((got is None) if want is None else (got == want))
+    return ok
